@@ -377,6 +377,16 @@ PC_C16_TxIdCommitOrder(i) ==
 PC_C16_LogIdCommitOrder(i) ==
   \A a, b \in NewTxOps(i) : Trace[i].cseq[a] < Trace[i].cseq[b] => LogIdOf(i, a) < LogIdOf(i, b)
 
+\* C16: ids stay dense under concurrency too. A request burns at most one transaction id and one log id per
+\* attempt, and it makes a bounded number of attempts (deadlock retries): nothing justifies an id far above the
+\* previous maximum plus the number of concurrent requests (e.g. ids handed out from per-connection ranges).
+PC_C16_Dense(i) ==
+  LET lg == Trace[i].op.l
+      b == BaseOf(i)
+      o == Raw(i)[lg]
+  IN /\ \A k \in DOMAIN o.txs : o.txs[k].id <= MaxTxId(LS(b, lg)) + 4 * NOps(i)
+     /\ \A k \in DOMAIN o.logs : o.logs[k].id <= MaxLogId(LS(b, lg)) + 4 * NOps(i)
+
 \* C09: with HASH_LOGS = SYNC every log chains from the log just before it in id order (linear chain)
 PC_C09_LinearChain(i) ==
   LET o == Raw(i)[Trace[i].op.l]
@@ -395,6 +405,7 @@ StepC_C14_Serializable == [][IsConc(l') => PC_C14_Serializable(l')]_vars
 StepC_C15_Serializable == [][IsConc(l') => PC_C15_Serializable(l')]_vars
 StepC_C16_Serializable == [][IsConc(l') => PC_C16_Serializable(l')]_vars
 StepC_C34_Serializable == [][IsConc(l') => PC_C34_Serializable(l')]_vars
+StepC_C16_Dense == [][IsConc(l') => PC_C16_Dense(l')]_vars
 StepC_C16_TxIdCommitOrder == [][IsConc(l') => PC_C16_TxIdCommitOrder(l')]_vars
 StepC_C16_LogIdCommitOrder == [][IsConc(l') => PC_C16_LogIdCommitOrder(l')]_vars
 StepC_C09_LinearChain == [][IsConc(l') => PC_C09_LinearChain(l')]_vars
@@ -489,6 +500,7 @@ ConcChecks(i) ==
      <<"StepC_C15_Serializable", PC_C15_Serializable(i)>>,
      <<"StepC_C16_Serializable", PC_C16_Serializable(i)>>,
      <<"StepC_C34_Serializable", PC_C34_Serializable(i)>>,
+     <<"StepC_C16_Dense", PC_C16_Dense(i)>>,
      <<"StepC_C16_TxIdCommitOrder", PC_C16_TxIdCommitOrder(i)>>,
      <<"StepC_C16_LogIdCommitOrder", PC_C16_LogIdCommitOrder(i)>>,
      <<"StepC_C09_LinearChain", PC_C09_LinearChain(i)>> >>
